@@ -271,6 +271,42 @@ def run(ctx):
             if d:
                 ctx.violation(f"{name} changed the result (neighbouring structures, predictions reaching into each other's reference): " + d,
                               {"cfg": cfg, "pred": p, "ref": r, "transform": name, "pred2": np.ascontiguousarray(p2), "ref2": np.ascontiguousarray(r2)})
+    # many reference structures, few predicted ones (most references missed): which reference a prediction meets -- an early or a late
+    # one in scan order -- changes under flips, nothing else does
+    for _ in range(ctx.scale(40, 300)):
+        k = rng.randint(4, 8)
+        h = rng.choice([1, 2, 3])
+        w = 4 * k + 2
+        r = np.zeros((h, w), "uint8"); p = np.zeros((h, w), "uint8")
+        for j in range(k):
+            r[:, 1 + 4 * j:1 + 4 * j + rng.choice([2, 3])] = 1
+        for j in rng.sample(range(k), rng.randint(1, 2)):
+            p[:, 1 + 4 * j:1 + 4 * j + rng.choice([2, 3])] = 1
+        if rng.random() < 0.5 and h > 1:
+            p[h - 1, w - 1] = 1                                          # a spurious prediction touching nothing
+            r[h - 1, w - 2:w] = 0
+        if rng.random() < 0.3:
+            p, r = p.T.copy(), r.T.copy()
+        cfg = gen_cfg(rng, "semantic")
+        cfg["matcher"], cfg["m2o"], cfg["mmetric"], cfg["mthr"] = "naive", False, "IOU", 0.5
+        cfg.pop("dmetric", None); cfg.pop("dthr", None)
+        cfg["backend"] = rng.choice([None, "cc3d", "scipy"])
+        try:
+            ip, ir = pipeline.approximate(p, r, cfg.get("backend"))
+            uniq = meta.unique_matching(cfg, ip, ir)
+        except Exception:
+            uniq = False
+        if not uniq:
+            continue
+        o1 = impl.evaluate(impl.make_evaluator(cfg), p.copy(), r.copy())
+        for name, p2, r2 in [(f"flip{ax}", np.flip(p, ax), np.flip(r, ax)) for ax in range(2)] + [("transpose", p.T, r.T), ("flip-both", np.flip(p), np.flip(r))]:
+            o2 = impl.evaluate(impl.make_evaluator(cfg), p2.copy(), r2.copy())
+            ctx.count({"cfg": cfg, "pred": p.tolist(), "ref": r.tolist(), "g": name}, True)
+            ctx.bump(f"many-missed-references/{name}")
+            d = meta.same_outcome(o1, o2)
+            if d:
+                ctx.violation(f"{name} changed the result (many reference structures, few predictions): " + d,
+                              {"cfg": cfg, "pred": p, "ref": r, "transform": name, "pred2": np.ascontiguousarray(p2), "ref2": np.ascontiguousarray(r2)})
     # the D15 witness (semantic input, two equal-score competing candidates; left-right flip)
     w = common.VERIF / "corpus" / "C10" / "d15.json"
     if w.exists():
